@@ -2,6 +2,7 @@ package lint
 
 import (
 	"fmt"
+	"go/token"
 	"go/types"
 	"strings"
 
@@ -327,6 +328,50 @@ func runC16(c *Ctx) {
 		c.NoReach("R16.6", "ctx done after Lock ⇒ unlock and return", del, p.EdgeSuccs(del, "nonnil(call:(context.Context).Err(free:param#1))"), 1, OrInstr(isStreamRead, p.CallTo("(*sync.Cond).Wait", gSend)), CutSpec{})
 		c.NoReach("R16.6", "ctx done after Wait ⇒ unlock and return", del, p.EdgeSuccs(del, "eq(select#0,const:0)"), 1, OrInstr(isStreamRead, p.CallTo("(*sync.Cond).Wait", gSend)), CutSpec{})
 	}
+
+	// ---------- R16.8 a pooled tracker map has one owner
+	c.Rule("R16.8", "E1", "rruntime output tracker: the map goes back to the process-wide pool only together with the adapter forgetting it (Put is followed by outputTracker = nil before the function returns, and is never deferred): a fault in one controller cannot make two controllers share one tracking map", 1)
+
+	putGlob := "(*" + pkgRRuntime + ".trackingOutputPool).Put"
+	nPut := 0
+
+	for _, f := range p.PkgFuncs(pkgRRuntime) {
+		isPut := func(in ssa.Instruction) bool {
+			call, ok := in.(*ssa.Call)
+
+			return ok && Glob(putGlob, p.CalleeName(call))
+		}
+
+		for _, in := range Find(f, func(in ssa.Instruction) bool {
+			switch in.(type) {
+			case *ssa.Defer, *ssa.Go:
+				return Glob(putGlob, p.CalleeName(in.(ssa.CallInstruction)))
+			}
+
+			return false
+		}) {
+			nPut++
+
+			c.Bad("R16.8", FuncName(f)+" :: the tracker is returned to the pool by a plain call", in.Pos(), "deferred/asynchronous Put: it runs whatever happened to the field in between, the map can reach the pool twice")
+		}
+
+		if len(Find(f, isPut)) == 0 {
+			continue
+		}
+
+		nPut++
+
+		forget := func(in ssa.Instruction) bool {
+			return StoreToField("Adapter", "outputTracker")(in) && isNilConst(in.(*ssa.Store).Val)
+		}
+
+		c.MustFollow("R16.8", "Put(outputTracker) ⇒ outputTracker = nil before return", f, isPut, IsReturn, CutSpec{Nodes: forget}, 1)
+	}
+
+	if nPut == 0 {
+		c.Unknown("R16.8", pkgRRuntime+" :: tracker pool Put", token.NoPos, "anchor-unresolved: no call of "+putGlob)
+	}
+
 }
 
 // blockingOps: in the controller-runtime packages every blocking select has a context/done arm and there is no bare
